@@ -51,3 +51,24 @@ PROPS['C11'] = {
     ],
     'not_decided': [],
 }
+
+NOT_APPLICABLE = {
+    'C01': 'needs Ed25519 unforgeability plus InitMsg::read_from / InitState::handle_init, which neither back end reaches (150-line TLV parser over Cursor/SmallVec; ring key objects); no contract within reach expresses it',
+    'C02': 'pending',
+    'C04': 'pending',
+    'C05': 'all-schedules agreement and recovery of two retransmitting state machines plus a liveness bound: a protocol-level joint invariant and liveness, outside per-function contracts',
+    'C06': 'pending',
+    'C07': 'invariant over the product of two RotationStates, eight key slots and in-flight messages with key identity defined through ECDH; liveness clause; not decidable by per-function contracts within reach',
+    'C08': 'pending',
+    'C09': 'whole-history property of 2-3 nodes over hundreds of seconds; no function-level contract expresses it without being stronger than the property',
+    'C10': 'pending',
+    'C12': 'pending',
+    'C13': 'pending',
+    'C14': 'convergence of N nodes is liveness over multi-node histories; the safety half lives in handle_init/connect (out of reach of both back ends)',
+    'C15': 'pending',
+    'C16': 'pending',
+    'C17': 'pending',
+    'C18': 'pending',
+    'C19': 'pending',
+    'C20': 'pending',
+}
